@@ -165,3 +165,74 @@ def run_variant(variant, seed=1):
         return anomalies, stats
     finally:
         srv.stop()
+
+
+def busy_expiry(seed=1, nkeys=48, readers=8):
+    """C06 under load: keys of several types get a one-second deadline while reader connections hammer exactly those keys
+    (and their lock stripes) across the deadline. One full second after the deadline second has ended every key must be
+    invisible to every command, however busy its stripe was at the instant its purge timer fired."""
+    import random
+    rnd = random.Random(seed)
+    srv = server.Server()
+    problems, stats = [], {"keys": nkeys, "readers": readers, "reads": 0}
+    try:
+        c = srv.client(timeout=10.0)
+        keys = []
+        for i in range(nkeys):
+            typ = ("string", "zset", "list", "hash")[i % 4]
+            k = "busy%d" % i
+            if typ == "string":
+                c.cmd("SET", k, "v%d" % i)
+            elif typ == "zset":
+                c.cmd("ZADD", k, *[x for j in range(200) for x in (str(j), "m%d" % j)])
+            elif typ == "list":
+                c.cmd("RPUSH", k, *["e%d" % j for j in range(200)])
+            else:
+                c.cmd("HSET", k, *[x for j in range(100) for x in ("f%d" % j, "v%d" % j)])
+            keys.append((k, typ))
+        now = time.time()
+        S = int(now) + 1
+        _sleep_until(S + 0.45)
+        t0 = time.time()
+        c.send_raw(b"".join(server.encode(["EXPIRE", k, "1"]) for k, _ in keys))
+        for _ in keys:
+            c.read_reply(timeout=10.0)
+        if int(time.time()) != int(t0):
+            return None, dict(stats, inconclusive="deadlines straddle a second boundary")
+        S = int(t0)
+        stop = threading.Event()
+        counts = [0] * readers
+
+        def reader(i):
+            r = random.Random(seed * 31 + i)
+            try:
+                rc = srv.client(timeout=10.0)
+                while not stop.is_set():
+                    k, typ = keys[r.randrange(len(keys))]
+                    cmd = {"string": ["GET", k], "zset": ["ZRANGE", k, "0", "-1"], "list": ["LRANGE", k, "0", "-1"], "hash": ["HGETALL", k]}[typ]
+                    rc.cmd(*cmd, timeout=10.0)
+                    counts[i] += 1
+                rc.close()
+            except Exception:
+                pass
+
+        ts = [threading.Thread(target=reader, args=(i,)) for i in range(readers)]
+        for t in ts:
+            t.start()
+        _sleep_until(S + 2.0 + 0.35)       # deadline second S+1 has ended at S+2: certainly gone from S+2 on
+        stop.set()
+        for t in ts:
+            t.join(timeout=20)
+        stats["reads"] = sum(counts)
+        if not srv.alive():
+            return [{"kind": "process-death", "key": None, "detail": srv.tail(1200)}], stats
+        for k, typ in keys:
+            ex = c.cmd("EXISTS", k, timeout=10.0)
+            rd = c.cmd(*{"string": ["GET", k], "zset": ["ZRANGE", k, "0", "-1"], "list": ["LLEN", k], "hash": ["HLEN", k]}[typ], timeout=10.0)
+            gone = rd in (("$", None), ("*", []), (":", 0))
+            if ex != (":", 0) or not gone:
+                problems.append({"kind": "visible-after-deadline", "key": k, "type": typ,
+                                 "detail": "deadline second %d, probed at %.2f: EXISTS -> %r, read -> %s" % (S + 1, time.time() - S, ex, repr(rd)[:80])})
+        return problems, stats
+    finally:
+        srv.stop()
